@@ -188,7 +188,8 @@ def run(tier):
     box = KBox(L)
     names = sorted(n for n in K if n.startswith('q120') and 'product' in n)
     R.floor('q120 product kernels', len(names), 10)
-    ells = [ME] if tier == 'quick' else sorted({1, 2, 100, ME // 2, ME})
+    # an odd length as well: unrolled kernels treat the last row separately
+    ells = [3, ME - 1, ME] if tier == 'quick' else sorted({1, 2, 3, 100, 101, ME // 2, ME - 1, ME})
     nodes = 0
     from concurrent.futures import ProcessPoolExecutor
     jobs = [(name, ell) for name in names for ell in ells]
